@@ -833,7 +833,7 @@ def context_programs(rng):
         "errtrap": "trap 'echo err:$?' ERR\nfalse\necho after:$?\n",
         "exittrap_exit": "trap 'echo t:$?' EXIT\nexit %d\n" % code,
         "exittrap_last_fails": "trap 'echo t:$?' EXIT\necho a\nfalse\n",
-        "alias_later": "shopt -s expand_aliases\nalias hi='echo hi-alias'\nhi %s\necho st:$?\n" % w.replace("'", ""),
+        "alias_later": "shopt -s expand_aliases\nalias hi='echo hi-alias'\nhi '%s'\necho st:$?\n" % w.replace("'", ""),   # quoted: the work directory is shared by concurrent cases
         "alias_same": "shopt -s expand_aliases\nalias hj='echo hj-alias'; hj\necho st:$?\n",
         "alias_in_func": "shopt -s expand_aliases\nalias hk='echo hk-alias'\nf() { hk; }\nf\n",
         "alias_unalias": "shopt -s expand_aliases\nalias hm='echo hm-alias'\nhm\nunalias hm\nhm\necho st:$?\n",
@@ -1127,11 +1127,14 @@ def check_purity(ctx, res):
         if len(v) > 1:
             sens.add(k)
     for cases, out in outs:
+        prev = None
         for c, o in zip(cases, out):
             n += 1
+            before, prev = prev, c
             f = fresh_of[tuple(c)]
             if o != f and sum(1 for v in res["spec_violations"] if "api" in v.get("input", {})) < 25:
-                res["spec_violations"].append({"input": {"api": c[0], "options": c[1], "text": c[2]},
+                res["spec_violations"].append({"input": {"api": c[0], "options": c[1], "text": c[2],
+                                                         "parsed_just_before": {"options": before[1], "text": before[2]} if before else None},
                                                "why": "parse result in a long-lived process differs from a fresh process "
                                                       "(depends on what was parsed before): %r vs fresh %r" % (
                                                           core.dec_line(o)[-1:] if " " in o else o, core.dec_line(f)[-1:] if " " in f else f)})
